@@ -81,7 +81,8 @@ def main():
     args = parser.parse_args()
     ids = sorted(d for d in os.listdir(os.path.join(VERIF, "seeded")) if os.path.exists(os.path.join(VERIF, "seeded", d, "meta.json")))
     if args.only:
-        ids = [i for i in ids if args.only in i]
+        import re
+        ids = [i for i in ids if re.search(args.only, i)]
     results_path = os.path.join(VERIF, "seeded", "RESULTS.json")
     results = {}
     if os.path.exists(results_path):
